@@ -121,3 +121,16 @@ package js_parser
 // operator written in the input (lowered later by the visit pass).
 //@ gate generated-logical-assign C14: feature=compat.LogicalAssignment ; site=store EBinary.Op const js_ast.BinOpLogicalOrAssign,js_ast.BinOpLogicalAndAssign,js_ast.BinOpNullishCoalescingAssign ; in=js_parser,js_ast,linker ; except=(*parser).parseSuffix:builds the node for an operator written in the input (the visit pass lowers it when unsupported)
 //@ gate generated-exponent C14: feature=compat.ExponentOperator ; site=store EBinary.Op const js_ast.BinOpPow,js_ast.BinOpPowAssign ; in=js_parser,js_ast,linker ; except=(*parser).parseSuffix:builds the node for an operator written in the input (the visit pass lowers it when unsupported)
+
+// ----------------------------------------------------------------------------------------------
+// C16 (zero-annotation safety sweep): for ALL arguments (no precondition), no index, slice, nil-dereference,
+// division or conversion in the body of these functions can panic. Loop counters that start at a constant and are
+// only incremented get their lower bound as an automatic invariant (`opt auto-counters`); nothing else is assumed.
+// Calls are replaced by contracts, inlined, or havocked: a panic inside a callee without a contract is not covered.
+//@ func ParseDefineExpr
+//@   arith int
+//@   nooverflow off
+//@   safety
+//@   opt auto-counters 1
+//@   prop C16
+
